@@ -10,9 +10,12 @@ theories/NumF.vos theories/NumF.vok theories/NumF.required_vos: theories/NumF.v 
 theories/ConverterM.vo theories/ConverterM.glob theories/ConverterM.v.beautified theories/ConverterM.required_vo: theories/ConverterM.v theories/Num.vo
 theories/ConverterM.vio: theories/ConverterM.v theories/Num.vio
 theories/ConverterM.vos theories/ConverterM.vok theories/ConverterM.required_vos: theories/ConverterM.v theories/Num.vos
-theories/Exec.vo theories/Exec.glob theories/Exec.v.beautified theories/Exec.required_vo: theories/Exec.v theories/Num.vo theories/NumF.vo theories/ConverterM.vo
-theories/Exec.vio: theories/Exec.v theories/Num.vio theories/NumF.vio theories/ConverterM.vio
-theories/Exec.vos theories/Exec.vok theories/Exec.required_vos: theories/Exec.v theories/Num.vos theories/NumF.vos theories/ConverterM.vos
+theories/TransformerM.vo theories/TransformerM.glob theories/TransformerM.v.beautified theories/TransformerM.required_vo: theories/TransformerM.v theories/Num.vo theories/ConverterM.vo
+theories/TransformerM.vio: theories/TransformerM.v theories/Num.vio theories/ConverterM.vio
+theories/TransformerM.vos theories/TransformerM.vok theories/TransformerM.required_vos: theories/TransformerM.v theories/Num.vos theories/ConverterM.vos
+theories/Exec.vo theories/Exec.glob theories/Exec.v.beautified theories/Exec.required_vo: theories/Exec.v theories/Num.vo theories/NumF.vo theories/ConverterM.vo theories/TransformerM.vo
+theories/Exec.vio: theories/Exec.v theories/Num.vio theories/NumF.vio theories/ConverterM.vio theories/TransformerM.vio
+theories/Exec.vos theories/Exec.vok theories/Exec.required_vos: theories/Exec.v theories/Num.vos theories/NumF.vos theories/ConverterM.vos theories/TransformerM.vos
 theories/proofs/VecLib.vo theories/proofs/VecLib.glob theories/proofs/VecLib.v.beautified theories/proofs/VecLib.required_vo: theories/proofs/VecLib.v theories/Num.vo
 theories/proofs/VecLib.vio: theories/proofs/VecLib.v theories/Num.vio
 theories/proofs/VecLib.vos theories/proofs/VecLib.vok theories/proofs/VecLib.required_vos: theories/proofs/VecLib.v theories/Num.vos
